@@ -482,11 +482,34 @@ func runC06(c *Ctx) {
 					}
 				}
 			}
-			if c.need("R06.4", "completion callback parameter of the dispatcher", doneP != nil) {
+			// the hooks may be grouped in a parameter struct (callEnv{…, done func(bool)}): the field then stands for the parameter
+			var doneF *types.Var
+			if doneP == nil {
+				for _, prm := range d.Params {
+					st, ok := prm.Type().Underlying().(*types.Struct)
+					if !ok {
+						continue
+					}
+					for j := 0; j < st.NumFields(); j++ {
+						if sig, ok := st.Field(j).Type().Underlying().(*types.Signature); ok && sig.Params().Len() == 1 && sig.Results().Len() == 0 {
+							if b, ok := sig.Params().At(0).Type().Underlying().(*types.Basic); ok && b.Kind() == types.Bool {
+								doneF = st.Field(j)
+							}
+						}
+					}
+				}
+			}
+			isDoneVal := func(v ssa.Value) bool {
+				if doneP != nil && c.isParamOrForwarded(v, doneP) {
+					return true
+				}
+				return doneF != nil && loadedField(v) == doneF
+			}
+			if c.need("R06.4", "completion callback parameter of the dispatcher", doneP != nil || doneF != nil) {
 				ndone := 0
 				p.coneInstrs(d, func(in ssa.Instruction) {
 					ci, ok := in.(ssa.CallInstruction)
-					if !ok || ci.Common().Value == nil || !c.isParamOrForwarded(ci.Common().Value, doneP) {
+					if !ok || ci.Common().Value == nil || !isDoneVal(ci.Common().Value) {
 						return
 					}
 					ndone++
